@@ -111,7 +111,7 @@ func (rg *proxyRig) backendHandler(w http.ResponseWriter, r *http.Request) {
 	}
 }
 
-func newProxyRig(discoverChainID bool) (*proxyRig, error) {
+func newProxyRig(discoverChainID bool, listener bool) (*proxyRig, error) {
 	root, _ := os.MkdirTemp("", "proxyrig")
 	rg := &proxyRig{root: root, chainID: 1337, keys: map[string][]byte{}, script: map[string]map[string]any{}}
 	rg.bin = os.Getenv("VERIF_FFSIGNER")
@@ -137,7 +137,7 @@ func newProxyRig(discoverChainID bool) (*proxyRig, error) {
 	if discoverChainID {
 		cid = "-1"
 	}
-	cfg := fmt.Sprintf("fileWallet:\n  path: %q\n  disableListener: true\n  filenames:\n    primaryExt: \".key.json\"\n    passwordExt: \".pwd\"\n  metadata:\n    format: none\nbackend:\n  url: %q\n  chainId: %s\nserver:\n  address: 127.0.0.1\n  port: %d\nlog:\n  level: error\n", wdir, rg.backend.URL, cid, port)
+	cfg := fmt.Sprintf("fileWallet:\n  path: %q\n  disableListener: "+fmt.Sprint(!listener)+"\n  filenames:\n    primaryExt: \".key.json\"\n    passwordExt: \".pwd\"\n  metadata:\n    format: none\nbackend:\n  url: %q\n  chainId: %s\nserver:\n  address: 127.0.0.1\n  port: %d\nlog:\n  level: error\n", wdir, rg.backend.URL, cid, port)
 	cfgPath := path.Join(root, "ffsigner.yaml")
 	_ = os.WriteFile(cfgPath, []byte(cfg), 0o600)
 	rg.url = fmt.Sprintf("http://127.0.0.1:%d/", port)
@@ -173,6 +173,36 @@ func (rg *proxyRig) alive() bool {
 	defer res.Body.Close()
 	b, _ := io.ReadAll(res.Body)
 	return res.StatusCode == 200 && strings.Contains(string(b), rg.accounts[0])
+}
+
+// addAccount drops one more key file (and its password file) into the wallet directory of the running proxy and
+// waits until eth_accounts lists it (the file-system listener is on for this rig), for at most 10 seconds. From now
+// on the wallet's addresses include it whether or not the proxy noticed.
+func (rg *proxyRig) addAccount(n int64) bool {
+	key := big.NewInt(n).FillBytes(make([]byte, 32))
+	kp := secp256k1.KeyPairFromBytes(key)
+	a := hx(kp.Address[:])
+	wdir := path.Join(rg.root, "wallet")
+	_ = os.WriteFile(path.Join(wdir, a+".pwd"), []byte("pw"), 0o600)
+	tmp := path.Join(rg.root, a+".tmp")
+	_ = os.WriteFile(tmp, externalV3(NewRng(uint64(n)), "scrypt", []byte("pw"), key, 2, 1, 1, 0), 0o600)
+	_ = os.Rename(tmp, path.Join(wdir, a+".key.json"))
+	rg.keys[a] = key
+	// a fresh slice (earlier requests keep the list they were made with), in discovery order as the wallet lists them
+	rg.accounts = append(append([]string{}, rg.accounts...), a)
+	c := http.Client{Timeout: 2 * time.Second}
+	for i := 0; i < 200; i++ {
+		res, err := c.Post(rg.url, "application/json", strings.NewReader(`{"jsonrpc":"2.0","id":"probe","method":"eth_accounts"}`))
+		if err == nil {
+			b, _ := io.ReadAll(res.Body)
+			res.Body.Close()
+			if strings.Contains(string(b), a) {
+				return true
+			}
+		}
+		time.Sleep(50 * time.Millisecond)
+	}
+	return false
 }
 
 func (rg *proxyRig) stop() {
@@ -275,11 +305,22 @@ func genMember(r *Rng, rg *proxyRig) map[string]any {
 		if r.Bool() {
 			tx["nonce"] = Pick(r, []any{"0x0", "0x7", json.Number("12"), "0x10000000000"})
 		}
-		switch r.Intn(3) {
-		case 0:
+		switch r.Intn(8) {
+		case 0, 1:
 			tx["gasPrice"] = "0x3b9aca00"
-		case 1:
+		case 2:
 			tx["maxFeePerGas"], tx["maxPriorityFeePerGas"] = "0x77359400", "0x1"
+		case 3: // one fee-market field alone
+			tx["maxFeePerGas"] = Pick(r, []any{"0x77359400", json.Number("5")})
+		case 4:
+			tx["maxPriorityFeePerGas"] = Pick(r, []any{"0x2", json.Number("7")})
+		case 5: // one of them present but zero / null, with or without a legacy gas price
+			tx["maxFeePerGas"], tx["maxPriorityFeePerGas"] = Pick(r, []any{"0x77359400", "0x0"}), Pick(r, []any{"0x0", nil, json.Number("0")})
+			if r.Bool() {
+				tx["gasPrice"] = "0x3b9aca00"
+			}
+		case 6: // both styles at once
+			tx["gasPrice"], tx["maxFeePerGas"], tx["maxPriorityFeePerGas"] = "0x3b9aca00", "0x77359400", "0x1"
 		}
 		if r.Bool() {
 			tx["to"] = "0x" + hx(r.Bytes(20))
@@ -790,7 +831,7 @@ func relayCheck(fs *[]Finding, i int, rp map[string]any, sc map[string]any) {
 func proxyGen(prop string) func(c *Ctx) {
 	return func(c *Ctx) {
 		r := c.R
-		rg, err := newProxyRig(prop == "C09" && c.Seed%2 == 0)
+		rg, err := newProxyRig(prop == "C09" && c.Seed%2 == 0, prop == "C09")
 		if err != nil {
 			c.Notes["rig_error"] = err.Error()
 			c.Add(map[string]any{"op": "proxy.handle", "body": "", "goValid": false, "rigError": err.Error(), "crashed": true, "stderr": err.Error()}, "rig-error")
@@ -803,6 +844,15 @@ func proxyGen(prop string) func(c *Ctx) {
 		}
 		if prop == "C09" {
 			for i := 0; i < n; i++ {
+				if i == n/2 || i == n*3/4 {
+					// the wallet gains an address while the proxy is serving: eth_accounts must list it from now on and
+					// eth_sendTransaction must sign for it
+					c.Notes[fmt.Sprintf("account_added_at_%d_seen", i)] = rg.addAccount(int64(2000 + i))
+					for q := 0; q < 3; q++ {
+						b, _ := json.Marshal(map[string]any{"jsonrpc": "2.0", "id": json.Number(fmt.Sprint(q)), "method": Pick(r, []string{"eth_accounts", "personal_accounts"})})
+						addProxyCase(c, rg, b, proxyScript(r), nil, "accounts.after-add")
+					}
+				}
 				script := proxyScript(r)
 				if r.Intn(3) == 0 {
 					k := 1 + r.Intn(Pick(r, []int{3, 8, 64}))
